@@ -348,6 +348,57 @@ func runHistory(c *mon.Case, f *fileFixture, nReaders, steps int) {
 				buf[i] = 0xEE
 			}
 			hasRead = true
+			// optional interfaces consumers probe a ReadSeeker for (upload managers, zip/section readers,
+			// bufio-less parsers): whatever the reader offers beyond Read and Seek has to serve the same
+			// content and leave the Read/Seek position where the model has it
+			if ra, isRA := rd.(io.ReaderAt); isRA && r.Intn(3) == 0 {
+				at := interestingTargets(r, f)
+				if at < 0 {
+					at = 0
+				}
+				var n int
+				var err error
+				step := fmt.Sprintf("r%d.ReadAt(%d,@%d)", ri, k, at)
+				if !c.Guard(step, func() { n, err = ra.ReadAt(buf, at) }) {
+					return
+				}
+				trace = append(trace, fmt.Sprintf("%s=(%d,%v)", step, n, err))
+				c.Count("steps", 1)
+				c.Count("readat_calls", 1)
+				var avail []byte
+				if at < l {
+					avail = f.Content[at:]
+				}
+				want := min(k, len(avail))
+				if n != want || !bytes.Equal(buf[:n], avail[:n]) || (n < k && err == nil) || (n == k && err != nil && err != io.EOF) {
+					fail("C04|readat", "ReadAt(len %d, off %d) returned (%d, %v) %x; the content there is %x (io.ReaderAt: n < len(p) comes with an error, n == len(p) with nil or EOF)", k, at, n, err, buf[:max(0, min(n, k))], avail[:want])
+					return
+				}
+				continue // the model position is unchanged: ReadAt does not move the seek offset
+			}
+			if br, isBR := rd.(io.ByteReader); isBR && r.Intn(3) == 0 {
+				var b byte
+				var err error
+				step := fmt.Sprintf("r%d.ReadByte()", ri)
+				if !c.Guard(step, func() { b, err = br.ReadByte() }) {
+					return
+				}
+				trace = append(trace, fmt.Sprintf("%s@%d=(%x,%v)", step, m.pos, b, err))
+				c.Count("steps", 1)
+				c.Count("readbyte_calls", 1)
+				if m.pos >= l {
+					if err != io.EOF {
+						fail("C04|readbyte", "ReadByte at position %d (length %d) returned (%x, %v), want EOF", m.pos, l, b, err)
+						return
+					}
+				} else if err != nil || b != f.Content[m.pos] {
+					fail("C04|readbyte", "ReadByte at position %d returned (%x, %v), the content there is %x", m.pos, b, err, f.Content[m.pos])
+					return
+				} else {
+					m.pos++
+				}
+				continue
+			}
 			var n int
 			var err error
 			step := fmt.Sprintf("r%d.Read(%d)", ri, k)
